@@ -162,6 +162,25 @@ def run(ctx, spec):
                         scenarios=[s[1] for s in scen_list],
                         ops=[x if x[0] != 0 else [0, x[1], "<scenario>", x[3], x[4]] for x in mops]))
                     break
+    # ---- constructing an environment must not depend on what was constructed before ----
+    import numpy as np
+    import nasim
+    import hashlib
+    from check_gen import fingerprint
+    for name in ("tiny-gen", "small-gen", "small-gen-rgoal", "medium-gen")[:2 if tier == "quick" else 4]:
+        for s0 in range(2 if tier == "quick" else 6):
+            np.random.seed(100 + s0)
+            alone = fingerprint(nasim.make_benchmark_scenario(name))
+            nasim.make_benchmark_scenario(name, seed=3 + s0)          # an earlier, seeded construction
+            np.random.seed(100 + s0)
+            after = fingerprint(nasim.make_benchmark_scenario(name))
+            out["evaluations"] += 1
+            if alone != after:
+                out["violations"].append(dict(
+                    kind="construction-history", property=pid, failing_input_found=True, signature=None,
+                    what=f"make_benchmark_scenario('{name}') with the global generator seeded to {100 + s0} builds a "
+                         f"different scenario after make_benchmark_scenario('{name}', seed={3 + s0}) was called first",
+                    name=name))
     # keep: every unknown violation (up to 5) and one witness of the known finding
     unknown = [v for v in out["violations"] if v.get("signature") is None]
     known = [v for v in out["violations"] if v.get("signature") is not None]
